@@ -61,6 +61,7 @@ type VC struct {
 	safety         bool
 	specDepth      int
 	nsub           int
+	typing         map[string]bool
 	libVars        map[string]bool
 	frameAllowed   map[string][]string
 	globals        map[string]string
@@ -95,23 +96,20 @@ func NewVC(P *Program, DB *ContractDB, fn *ssa.Function, c *FuncContract, prop s
 	return vc
 }
 
-const prelude = `(declare-datatypes ((Slice 0)) (((mk_slice (s_base Int) (s_off Int) (s_len Int) (s_cap Int)))))
+// prelude entries: declarations always emitted; axioms only when the query
+// mentions the symbol (keeps quantifier-free obligations quantifier-free, so the
+// solvers answer sat with a model instead of unknown).
+const preludeDecls = `(declare-datatypes ((Slice 0)) (((mk_slice (s_base Int) (s_off Int) (s_len Int) (s_cap Int)))))
 (declare-datatypes ((Iface 0)) (((mk_iface (i_type Int) (i_val Int)))))
 (declare-fun strlen (Int) Int)
-(assert (forall ((s Int)) (! (>= (strlen s) 0) :pattern ((strlen s)))))
-(assert (= (strlen 0) 0))
 (declare-fun str_cat (Int Int) Int)
-(assert (forall ((a Int) (b Int)) (! (= (strlen (str_cat a b)) (+ (strlen a) (strlen b))) :pattern ((str_cat a b)))))
 (declare-fun str_sub (Int Int Int) Int)
-(assert (forall ((a Int) (l Int) (h Int)) (! (=> (and (<= 0 l) (<= l h)) (= (strlen (str_sub a l h)) (- h l))) :pattern ((str_sub a l h)))))
 (declare-fun str_at (Int Int) Int)
-(assert (forall ((a Int) (i Int)) (! (and (<= 0 (str_at a i)) (< (str_at a i) 256)) :pattern ((str_at a i)))))
 (declare-fun bytes2str (Slice Int) Int)
 (declare-fun implements (Int Int) Bool)
 (declare-fun subtag (Int) Int)
 (declare-fun box_slice (Slice) Int)
 (declare-fun unbox_slice (Int) Slice)
-(assert (forall ((s Slice)) (! (= (unbox_slice (box_slice s)) s) :pattern ((box_slice s)))))
 (declare-fun bitand (Int Int) Int)
 (declare-fun bitor (Int Int) Int)
 (declare-fun bitxor (Int Int) Int)
@@ -119,9 +117,17 @@ const prelude = `(declare-datatypes ((Slice 0)) (((mk_slice (s_base Int) (s_off 
 (declare-fun bitshr (Int Int) Int)
 (declare-fun bitandnot (Int Int) Int)
 (declare-fun bitnot (Int) Int)
-(assert (forall ((a Int) (b Int)) (! (=> (and (>= a 0) (>= b 0)) (and (>= (bitand a b) 0) (<= (bitand a b) a) (<= (bitand a b) b))) :pattern ((bitand a b)))))
-(assert (forall ((a Int) (b Int)) (! (=> (and (>= a 0) (>= b 0)) (and (>= (bitor a b) a) (>= (bitor a b) b))) :pattern ((bitor a b)))))
 `
+
+var preludeAxioms = []struct{ sym, text string }{
+	{"strlen", "(assert (forall ((s Int)) (! (>= (strlen s) 0) :pattern ((strlen s)))))\n(assert (= (strlen 0) 0))"},
+	{"str_cat", "(assert (forall ((a Int) (b Int)) (! (= (strlen (str_cat a b)) (+ (strlen a) (strlen b))) :pattern ((str_cat a b)))))"},
+	{"str_sub", "(assert (forall ((a Int) (l Int) (h Int)) (! (=> (and (<= 0 l) (<= l h)) (= (strlen (str_sub a l h)) (- h l))) :pattern ((str_sub a l h)))))"},
+	{"str_at", "(assert (forall ((a Int) (i Int)) (! (and (<= 0 (str_at a i)) (< (str_at a i) 256)) :pattern ((str_at a i)))))"},
+	{"box_slice", "(assert (forall ((s Slice)) (! (= (unbox_slice (box_slice s)) s) :pattern ((box_slice s)))))"},
+	{"bitand", "(assert (forall ((a Int) (b Int)) (! (=> (and (>= a 0) (>= b 0)) (and (>= (bitand a b) 0) (<= (bitand a b) a) (<= (bitand a b) b))) :pattern ((bitand a b)))))"},
+	{"bitor", "(assert (forall ((a Int) (b Int)) (! (=> (and (>= a 0) (>= b 0)) (and (>= (bitor a b) a) (>= (bitor a b) b))) :pattern ((bitor a b)))))"},
+}
 
 func (vc *VC) emit(s string) { vc.lines = append(vc.lines, s) }
 
@@ -192,13 +198,22 @@ func (vc *VC) oblige(kind, name, clause, cond, goal string, pos token.Pos, claim
 
 // Script renders the SMT-LIB query of an obligation.
 func (o *Obligation) Script() string {
-	var sb strings.Builder
-	sb.WriteString(prelude)
+	var body strings.Builder
 	for _, l := range o.vc.lines[:o.NLines] {
-		sb.WriteString(l)
-		sb.WriteByte('\n')
+		body.WriteString(l)
+		body.WriteByte('\n')
 	}
-	sb.WriteString("(assert " + sAnd(o.Cond, sNot(o.Goal)) + ")\n")
+	body.WriteString("(assert " + sAnd(o.Cond, sNot(o.Goal)) + ")\n")
+	b := body.String()
+	var sb strings.Builder
+	sb.WriteString(preludeDecls)
+	for _, ax := range preludeAxioms {
+		if strings.Contains(b, "("+ax.sym+" ") {
+			sb.WriteString(ax.text)
+			sb.WriteByte('\n')
+		}
+	}
+	sb.WriteString(b)
 	return sb.String()
 }
 
@@ -756,4 +771,15 @@ func (vc *VC) havocLib(st *State) {
 		}
 	}
 	vc.havocVar(st, "$alloc")
+}
+
+func (vc *VC) typingFact(f string) {
+	if vc.typing == nil {
+		vc.typing = map[string]bool{}
+	}
+	if vc.typing[f] {
+		return
+	}
+	vc.typing[f] = true
+	vc.emit("(assert " + f + ")")
 }
